@@ -19,25 +19,27 @@ const lalPrefix = "github.com/q191201771/lal/"
 const nazaPrefix = "github.com/q191201771/naza/"
 
 type Prog struct {
-	prog       *ssa.Program
-	pkgs       []*packages.Package
-	fset       *token.FileSet
-	funcs      map[string]*ssa.Function // key: pkgpath.RelName
-	keyOf      map[*ssa.Function]string
-	specs      *Specs
-	dirty      map[string]bool // "typeShort.field" whose address escapes
-	mods       map[*ssa.Function]map[string]bool
-	typeID     map[string]int
-	typeBy     map[int]types.Type
-	files      map[string]*ast.File // filename -> syntax
-	src        map[string][]byte
-	byPos      map[token.Pos]ast.Node // Lbrack / Lparen / etc. -> node
-	inScope    []*ssa.Function
-	addrTaken  map[string][]*ssa.Function // signature string -> functions used as values
-	implCache  map[string][]*ssa.Function
-	pkgByPath  map[string]*ssa.Package
-	namedTypes []*types.Named
-	repo       string
+	prog         *ssa.Program
+	pkgs         []*packages.Package
+	fset         *token.FileSet
+	funcs        map[string]*ssa.Function // key: pkgpath.RelName
+	keyOf        map[*ssa.Function]string
+	specs        *Specs
+	dirty        map[string]bool // "typeShort.field" whose address escapes
+	mods         map[*ssa.Function]map[string]bool
+	typeID       map[string]int
+	typeBy       map[int]types.Type
+	files        map[string]*ast.File // filename -> syntax
+	src          map[string][]byte
+	byPos        map[token.Pos]ast.Node // Lbrack / Lparen / etc. -> node
+	inScope      []*ssa.Function
+	addrTaken    map[string][]*ssa.Function // signature string -> functions used as values
+	implCache    map[string][]*ssa.Function
+	pkgByPath    map[string]*ssa.Package
+	namedTypes   []*types.Named
+	repo         string
+	sweepInlined []*ssa.Function
+	nonNilGlobals map[*ssa.Global]bool // write-once package variables initialised with a non-nil value
 }
 
 func inScopePkg(path string) bool {
@@ -120,6 +122,9 @@ func loadProg(repo, contractsDir string) (*Prog, error) {
 		if !inScopePkg(path) && !inlineStd[path] {
 			continue
 		}
+		if path == "encoding/binary" && !binaryEndianFn(f) {
+			continue
+		}
 		if f.Blocks == nil {
 			continue
 		}
@@ -178,7 +183,25 @@ func loadProg(repo, contractsDir string) (*Prog, error) {
 	})
 	P.analyzeDirty()
 	P.collectAddrTaken()
+	P.analyzeGlobals()
 	return P, nil
+}
+
+// binaryEndianFn: the fixed-size big/little-endian accessors of
+// encoding/binary, the only standard-library functions executed from source.
+func binaryEndianFn(f *ssa.Function) bool {
+	if f.Signature.Recv() == nil {
+		return false
+	}
+	r := f.Signature.Recv().Type().String()
+	if r != "encoding/binary.bigEndian" && r != "encoding/binary.littleEndian" {
+		return false
+	}
+	switch f.Name() {
+	case "Uint16", "Uint32", "Uint64", "PutUint16", "PutUint32", "PutUint64":
+		return true
+	}
+	return false
 }
 
 func funcKey(f *ssa.Function) string {
@@ -398,4 +421,60 @@ func (P *Prog) getTypeID(t types.Type) int {
 	P.typeID[k] = id
 	P.typeBy[id] = t
 	return id
+}
+
+// analyzeGlobals: package-level variables that are stored to only by their
+// package initialiser, with a value that cannot be nil (errors.New,
+// fmt.Errorf, a composite literal, make, a function). Loads of such a
+// variable are non-nil (DESIGN §2.2 "global ... write-once check").
+func (P *Prog) analyzeGlobals() {
+	P.nonNilGlobals = map[*ssa.Global]bool{}
+	bad := map[*ssa.Global]bool{}
+	for _, f := range P.inScope {
+		isInit := f.Name() == "init" && f.Signature.Recv() == nil && f.Parent() == nil
+		for _, b := range f.Blocks {
+			for _, in := range b.Instrs {
+				st, ok := in.(*ssa.Store)
+				if ok {
+					if g, isG := st.Addr.(*ssa.Global); isG {
+						okv := false
+						if isInit {
+							switch v := st.Val.(type) {
+							case *ssa.Call:
+								if c := v.Call.StaticCallee(); c != nil {
+									switch c.String() {
+									case "errors.New", "fmt.Errorf":
+										okv = true
+									}
+								}
+							case *ssa.MakeInterface, *ssa.Alloc, *ssa.MakeMap, *ssa.MakeChan, *ssa.MakeClosure, *ssa.Function, *ssa.MakeSlice:
+								okv = true
+							}
+						}
+						if okv && !bad[g] {
+							P.nonNilGlobals[g] = true
+						} else {
+							bad[g] = true
+							delete(P.nonNilGlobals, g)
+						}
+						continue
+					}
+				}
+				// any other use of the global's address than a load disqualifies it
+				var ops []*ssa.Value
+				for _, op := range in.Operands(ops) {
+					if g, isG := (*op).(*ssa.Global); isG {
+						if u, isLoad := in.(*ssa.UnOp); isLoad && u.Op == token.MUL {
+							continue
+						}
+						if _, isDbg := in.(*ssa.DebugRef); isDbg {
+							continue
+						}
+						bad[g] = true
+						delete(P.nonNilGlobals, g)
+					}
+				}
+			}
+		}
+	}
 }
